@@ -99,10 +99,24 @@ type c13Loop struct {
 	arg         string // SlashArg
 	argSrc      string
 	cursorAfter bool // a SetLastSlashed* call follows the inner loop inside the outer loop
+	fillKey     string // field of the stored confirm the map is keyed by: `confirmOracleMap[confirm.<F>] = …`
+	lookupKey   string // field of the oracle record looked up: `confirmOracleMap[oracles[i].<F>]`
+}
+
+func keyField(f string) string {
+	switch f {
+	case "ExternalAddress":
+		return ".external"
+	case "BridgerAddress":
+		return ".bridger"
+	case "OracleAddress":
+		return ".oracle"
+	}
+	return ".other"
 }
 
 func (c *ctxT) c13SlashLoop(name string) c13Loop {
-	res := c13Loop{startSkip: ".other", arg: ".other"}
+	res := c13Loop{startSkip: ".other", arg: ".other", fillKey: ".other", lookupKey: ".other"}
 	fd := c.findFunc(c13Keeper, "Keeper", name)
 	if fd == nil || fd.Body == nil {
 		return res
@@ -128,6 +142,18 @@ func (c *ctxT) c13SlashLoop(name string) c13Loop {
 	if inner == nil {
 		return res
 	}
+	for _, st := range outer.Body.List[:innerIdx] {
+		ast.Inspect(st, func(n ast.Node) bool {
+			if as, ok := n.(*ast.AssignStmt); ok && len(as.Lhs) == 1 {
+				if ix, ok := as.Lhs[0].(*ast.IndexExpr); ok && squash(c.src(ix.X)) == "confirmOracleMap" {
+					if se, ok := ix.Index.(*ast.SelectorExpr); ok && squash(c.src(se.X)) == "confirm" {
+						res.fillKey = keyField(se.Sel.Name)
+					}
+				}
+			}
+			return true
+		})
+	}
 	for _, st := range outer.Body.List[innerIdx+1:] {
 		if strings.Contains(c.src(st), "SetLastSlashed") {
 			res.cursorAfter = true
@@ -152,7 +178,12 @@ func (c *ctxT) c13SlashLoop(name string) c13Loop {
 			}
 			continue
 		}
-		if ifs.Init != nil && strings.Contains(squash(c.src(ifs.Init)), "confirmOracleMap[oracles[i].ExternalAddress]") {
+		if ifs.Init != nil && strings.Contains(squash(c.src(ifs.Init)), "confirmOracleMap[oracles[i].") {
+			init := squash(c.src(ifs.Init))
+			f := init[strings.Index(init, "confirmOracleMap[oracles[i].")+len("confirmOracleMap[oracles[i]."):]
+			if j := strings.Index(f, "]"); j >= 0 {
+				res.lookupKey = keyField(f[:j])
+			}
 			cond := squash(c.src(ifs.Cond))
 			hasSlash := false
 			ast.Inspect(ifs.Body, func(n ast.Node) bool {
@@ -306,7 +337,18 @@ func extractC13(c *ctxT) {
 		fmt.Fprintf(&sb, "/-- %s: `if uint64(oracles[i].StartHeight) <cmp> obj.Height { continue }`; SlashOracle(ctx, %s) -/\n", nm, l.argSrc)
 		fmt.Fprintf(&sb, "def %sStartSkip : Cmp := %s\ndef %sSlashArg : SlashArg := %s\ndef %sCursorSetAfterLoop : Bool := %s\n", pref[nm], l.startSkip, pref[nm], l.arg, pref[nm], lb(l.cursorAfter))
 	}
-	fmt.Fprintf(&sb, "/-- all three loops slash when the oracle's external address is NOT among the stored confirms (`!ok`) -/\ndef slashWhenConfirmMissing : Bool := %s\n\n", lb(allMissing))
+	fmt.Fprintf(&sb, "/-- all three loops slash when the oracle's key is NOT among the stored confirms (`!ok`) -/\ndef slashWhenConfirmMissing : Bool := %s\n\n", lb(allMissing))
+	sb.WriteString("/-- which field keys the per-object map of confirms / which field of the oracle record is looked up in it -/\ninductive KeyField where | external | bridger | oracle | other\n  deriving DecidableEq, Repr\n\n")
+	fill, look := loops["oracleSetSlashing"].fillKey, loops["oracleSetSlashing"].lookupKey
+	for _, nm := range []string{"batchSlashing", "bridgeCallSlashing"} {
+		if loops[nm].fillKey != fill {
+			fill = ".other"
+		}
+		if loops[nm].lookupKey != look {
+			look = ".other"
+		}
+	}
+	fmt.Fprintf(&sb, "/-- `confirmOracleMap[confirm.<field>] = struct{}{}` in all three loops (`.other` if they differ) -/\ndef slashConfirmFill : KeyField := %s\n/-- `confirmOracleMap[oracles[i].<field>]` in all three loops -/\ndef slashConfirmLookup : KeyField := %s\n\n", fill, look)
 
 	// --- GetUnSlashed*
 	o1, _ := c.c13CursorOffset("GetUnSlashedOracleSets", "GetLastSlashedOracleSetNonce")
@@ -380,6 +422,9 @@ func extractC13(c *ctxT) {
 		}
 	}
 	fmt.Fprintf(&sb, "/-- `if _, err = GetUnbondingDelegation(…); %s { return … }` -/\ndef unbondUbdTest : UbdTest := %s\n\n", ubdSrc, ubd)
+	c13RefreshFacts(c, &sb)
+	c13SetFacts(c, &sb)
+	c13AddFacts(c, &sb)
 	sb.WriteString("end FxVerif.Gen.C13\n")
 	c.write("C13.lean", sb.String())
 	c.facts["C13.bridgeCallSlashArg"] = loops["bridgeCallSlashing"].argSrc
@@ -526,6 +571,7 @@ func extractC07(c *ctxT) {
 	}
 	sort.Strings(fns)
 	fmt.Fprintf(&sb, "/-- functions reachable from `Keeper.EndBlocker` (name-based call graph) -/\ndef endBlockerFns : List String := %s\n\n", leanList(fns))
+	c07GovFacts(c, &sb)
 	sb.WriteString("end FxVerif.Gen.C07\n")
 	c.write("C07.lean", sb.String())
 	c.facts["C07.sites"] = fs
